@@ -15,6 +15,7 @@ From BV Require Import Model.CodecsXfields Proofs.CodecsXfields Gen.C18XRegistry
 From BV Require Import Model.CodecsShapes Proofs.CodecsShapes Gen.C18Shapes.
 From BV Require Import Model.CodecsA2dp Proofs.CodecsA2dp.
 From BV Require Import Model.CodecsFieldSrc Proofs.CodecsFieldSrc Gen.C18FieldSrc.
+From BV Require Import Model.CodecsSdpState Proofs.CodecsSdpState.
 Import ListNotations.
 Open Scope Z_scope.
 
@@ -219,6 +220,43 @@ Print Assumptions C18_sdp_container_overrun_rejected.
 Theorem C18_sdp_nesting_limit_refuted : exists e b, encode e = Some b /\ from_bytes 1 b = PErr.
 Proof. exact sdp_depth_refuted. Qed.
 Print Assumptions C18_sdp_nesting_limit_refuted.
+
+(* the parser with its nesting counter as state (self.depth += 1 ... self.depth -= 1), as the code has it *)
+(* the counter after parsing one element equals the counter before, for all inputs *)
+Theorem C18_sdp_depth_counter_restored : forall fuel maxd depth d e c raw cn dep',
+  (depth <= maxd)%nat -> sparse_next false fuel maxd depth d = SOk e c raw cn dep' -> dep' = depth.
+Proof. exact depth_restored. Qed.
+Print Assumptions C18_sdp_depth_counter_restored.
+
+(* and that parser is exactly the functional one the round-trip theorems are about *)
+Theorem C18_sdp_stateful_parser_refines : forall fuel maxd depth d, (depth <= maxd)%nat ->
+  sparse_next false fuel maxd depth d = inject (parse_next fuel (maxd - depth) d) depth.
+Proof. exact sparse_refines_parse. Qed.
+Print Assumptions C18_sdp_stateful_parser_refines.
+
+(* a serialised element parses back iff its REAL nesting is within the limit, whatever its breadth
+   (elem_depth is a maximum over children: any number of empty or shallow containers costs nothing) *)
+Theorem C18_sdp_nesting_exact : forall e b tail fuel depth,
+  encode e = Some b -> elem_bytes_ok e = true -> (length (b ++ tail) < fuel)%nat ->
+  ((elem_depth e <= depth)%nat -> parse_next fuel depth (b ++ tail) = POk e (lenZ b) b true) /\
+  ((depth < elem_depth e)%nat -> parse_next fuel depth (b ++ tail) = PErr).
+Proof. exact sdp_nesting_exact. Qed.
+Print Assumptions C18_sdp_nesting_exact.
+
+Theorem C18_sdp_stateful_nesting_exact : forall maxd e b,
+  encode e = Some b -> elem_bytes_ok e = true ->
+  ((elem_depth e <= maxd)%nat -> sfrom_bytes false maxd b = SOk e (lenZ b) b true 0) /\
+  ((maxd < elem_depth e)%nat -> sfrom_bytes false maxd b = SErr).
+Proof. exact sdp_stateful_nesting_exact. Qed.
+Print Assumptions C18_sdp_stateful_nesting_exact.
+
+(* an exit path that skips the decrement (early return for an empty container) is refuted *)
+Theorem C18_sdp_depth_leak_refuted :
+  let e := ESeq (repeat (ESeq []) 33) in
+  exists b, encode e = Some b /\ elem_depth e = 2%nat /\
+            erase (sfrom_bytes false 32 b) = POk e (lenZ b) b true /\ sfrom_bytes true 32 b = SErr.
+Proof. exact leak_refuted. Qed.
+Print Assumptions C18_sdp_depth_leak_refuted.
 
 (* ------------------------------------------------------------------ UUID and Address *)
 (* whatever was registered, parsed or constructed before (any registry state, hence any
@@ -522,7 +560,8 @@ Theorem C18_layouts_match_source :
   sdp_fixed_index_src = sdp_fixed_index_layout /\ sdp_var_index_src = sdp_var_index_layout /\
   sdp_parse_fixed_src = sdp_parse_fixed_layout /\ sdp_parse_var_src = sdp_parse_var_layout /\
   sbc_parse_src = sbc_parse_layout /\ sbc_ser_src = sbc_ser_layout /\ aac_parse_src = aac_parse_layout /\
-  aac_ser_src = aac_ser_layout /\ aac_ser_src_outer = aac_ser_outer_layout.
+  aac_ser_src = aac_ser_layout /\ aac_ser_src_outer = aac_ser_outer_layout /\
+  sdp_list_exits_src = sdp_list_exits_layout /\ exits_restore_depth sdp_list_exits_src = true.
 Proof. exact shapes_equal_checked. Qed.
 Print Assumptions C18_layouts_match_source.
 
